@@ -1089,6 +1089,13 @@ fn parse_op(name: &str) -> Option<Op> {
     })
 }
 
+/// id of the known finding that covers the JSON key-text collision, if the lead filed one
+fn known_collision_id(env: &Env) -> Option<String> {
+    let text = std::fs::read_to_string(env.verif_dir.join("known_findings.json")).ok()?;
+    let j: serde_json::Value = serde_json::from_str(&text).ok()?;
+    j["findings"].as_array()?.iter().find(|f| f["property"] == "C20" && f["status"] == "known" && f["shape"] == "json-key-text-collision").and_then(|f| f["id"].as_str().map(|s| s.to_string()))
+}
+
 fn main() {
     quiet_panics();
     let env = Env::from_env();
@@ -1210,6 +1217,14 @@ fn main() {
         cases.push(Case { op: Op::JsonRead, s: String::new(), v: Some(v.clone()) });
         cases.push(Case { op: Op::Json, s: String::new(), v: Some(v) });
     }
+    // the key-text collision shape once: {1: "a", "1": "b"} (an observation unless listed in
+    // known_findings.json as a known finding of C20 with shape "json-key-text-collision")
+    if round == 0 {
+        let mut m = tera::Map::new();
+        m.insert(Key::U64(1), Value::from("a"));
+        m.insert(Key::from("1".to_string()), Value::from("b"));
+        cases.push(Case { op: Op::Json, s: String::new(), v: Some(Value::from(m)) });
+    }
     // deep nesting once
     if round == 0 {
         let mut v = Value::from(1);
@@ -1301,6 +1316,16 @@ fn main() {
         let (o, m) = rerun(&small);
         let why = o.oracle.clone().unwrap_or_default();
         report.violation("property", format!("{}: {}", op_name(&c.op), why), replay_json(&small, &o, m.as_ref(), serde_json::json!({"oracle": why})));
+    }
+    if round == 0 {
+        if let Some(id) = known_collision_id(&env) {
+            if let Some((c, o)) = cases.iter().zip(&outcomes).filter(|(_, o)| o.tags.iter().any(|t| t.starts_with("json.key-text-collision"))).min_by_key(|(_, o)| o.req.len()) {
+                report.violation("property", "json_encode: two keys with the same JSON text give an object with a duplicate name (a reader keeps one)".into(), replay_json(c, o, None, serde_json::json!({"shape": "json-key-text-collision"})));
+                if let Some(v) = report.violations.last_mut() {
+                    v.known = Some(id);
+                }
+            }
+        }
     }
     if fails.is_empty() && !mismatches.is_empty() {
         // model and implementation differ while every oracle passed on the sampled inputs: search
